@@ -393,7 +393,7 @@ pub fn check(a: &BTreeMap<String, String>) -> i32 {
             "extra": extra,
         },
         "assumptions": [
-            "sampling, not proof: capacities <= 32 (256 for one C06 configuration), histories <= 24 operations, ten element shapes",
+            "sampling, not proof: capacities <= 64 and 300 (256 for one C06 configuration), histories <= 24 operations, ten element shapes",
             "native runs detect memory errors through the object ledger, the 0xA5 poison hook, canaries and invariants; real undefined-behaviour detection comes from the separate Miri/ASan batches of the thorough tier",
             "the harness's own unsafe-free bookkeeping is trusted",
         ],
